@@ -32,6 +32,7 @@ type Outcome struct {
 	NonTrivial bool     // by the property's stated rule
 	Labels     []string // classes this case belongs to
 	Skip       bool     // case was vacuous/not applicable: counted separately
+	Extra      map[string]int64 // additive counters reported in evidence (e.g. crash points)
 }
 
 // Violation is returned by a Run function when the property is violated.
@@ -141,6 +142,10 @@ func (r *recorder) record(hash uint64, o Outcome, desc string) {
 	r.mu.Lock()
 	defer r.mu.Unlock()
 	r.evals++
+	for k, v := range o.Extra {
+		cur, _ := r.extra[k].(int64)
+		r.extra[k] = cur + v
+	}
 	if o.Skip {
 		r.skipped++
 		return
